@@ -1680,6 +1680,18 @@ Example ex_unreachable :
   fib_replay (snd (run ex_cfg Fixed st0 ops)) (None, (0, 1)) = [1].
 Proof. vm_compute. auto. Qed.
 
+(* the three next-hop forms share the tracked address: a report for the global
+   address excludes the path received with the 32-byte global + link-local form *)
+Example ex_unreachable_link_local :
+  let ops := [Insert 3 0 (0, 1) 0 (Some (NhV6LL 101 2)) 0; Insert 2 0 (0, 1) 0 (Some (NhV6 102)) 2;
+              Insert 1 0 (0, 1) 1 (Some (NhV4 1)) 0; NhValidity 101 false] in
+  let s := fst (run ex_cfg Fixed st0 ops) in
+  unreachable_after ops 101 false = true /\
+  length (d_l (s_get s (0, 1))) = 3%nat /\ length (selectable (d_l (s_get s (0, 1)))) = 2%nat /\
+  fib_replay (snd (run ex_cfg Fixed st0 ops)) (None, (0, 1)) = [1; 102] /\
+  ref_replay (snd (run ex_cfg Fixed st0 ops)) 101 = 1.
+Proof. vm_compute. auto. Qed.
+
 Example ex_vrf_hyps : NoDup (map fst (c_vrfs ex_cfg)) /\ In (5, [1]) (c_vrfs ex_cfg).
 Proof. split. cbn. repeat constructor; cbn; intuition discriminate. cbn. auto. Qed.
 
